@@ -7,5 +7,7 @@ CONSTANTS
   MaxSnaps = 2
   MaxOps = 30
   Depth = 30
+  CodeIds = {1, 2}
+  Blocks = TRUE
   HistOn = TRUE
 INVARIANT Emit
